@@ -169,14 +169,15 @@ def decGenes (K : Consts F) (traits : List (Trait F)) (nodes : List Node) : List
       | .error e => .error e
       | .ok gs => .ok (g :: gs)
 
-/-- the link loops of `readMIMOControlGene`: `NodeWithId(id, nodes)` must find the node; the link is
+/-- the link loops of `readMIMOControlGene`: `NodeWithId(id, nodes)` must find the node (any id, also 0: repaired code,
+    the pre-repair helper treated id 0 as absent - `Model/LegacyCodec.lean`); the link is
     `NewLink(1.0, …, false)` whatever was written -/
 def decWires (K : Consts F) (nodes : List Node) : List (Val F) → Except Err (List (Wire F))
   | [] => .ok []
   | .map kvs :: vs =>
     match get kvs "id" with
     | some (.int id) =>
-      if id != 0 && nodes.any (·.id == id) then
+      if nodes.any (·.id == id) then
         match decWires K nodes vs with
         | .error e => .error e
         | .ok ws => .ok ({ node := id, w := K.one, recur := false, trait := none } :: ws)
@@ -258,10 +259,10 @@ def ynodeOK (C : Codec F) (traits : List (Trait F)) (n : Node) : Bool :=
      | none => false
      | some nm => C.actOfName nm == some n.act)
 
-/-- a module wire as the YAML reader rebuilds it: endpoint a listed node with non-zero id, weight `1.0`,
+/-- a module wire as the YAML reader rebuilds it: endpoint a listed node, weight `1.0`,
     not recurrent, no trait -/
 def wireOK [DecidableEq F] (K : Consts F) (nodes : List Node) (w : Wire F) : Bool :=
-  w.node != 0 && nodes.any (·.id == w.node) && decide (w.w = K.one) && !w.recur && w.trait.isNone
+  nodes.any (·.id == w.node) && decide (w.w = K.one) && !w.recur && w.trait.isNone
 
 def moduleOK [DecidableEq F] (C : Codec F) (K : Consts F) (traits : List (Trait F)) (nodes : List Node) (m : Module F) : Bool :=
   m.ctrl.kind == Kind.hidden && PlainIO.refOK traits m.ctrl.trait &&
